@@ -30,6 +30,14 @@ pub const ST_FAIL: u32 = 6;
 pub const ST_NONDET: u32 = 7;
 pub const ST_RESIDENCY: u32 = 8;
 pub const ST_TOOMANY: u32 = 9;
+/// the operating system ran out of a resource (ephemeral ports, descriptors, memory): says nothing about the code under
+/// test; the explorer runs the schedule again after a pause
+pub const ST_ENV: u32 = 10;
+
+/// messages of OS errors that mean resource exhaustion on this machine, not a behaviour of the code under test
+pub fn is_env_exhaustion(msg: &str) -> bool {
+    ["Cannot assign requested address", "Too many open files", "No buffer space available", "Cannot allocate memory", "Address already in use"].iter().any(|m| msg.contains(m))
+}
 pub const ST_CRASH: u32 = 98;
 pub const ST_TIMEOUT: u32 = 99;
 
@@ -44,6 +52,7 @@ pub fn status_name(s: u32) -> &'static str {
         ST_NONDET => "nondeterminism",
         ST_RESIDENCY => "residency",
         ST_TOOMANY => "too_many_choice_points",
+        ST_ENV => "environment",
         ST_CRASH => "crash",
         ST_TIMEOUT => "child_timeout",
         _ => "none",
@@ -586,6 +595,7 @@ impl Engine {
     }
 
     fn finish_locked(&self, st: MutexGuard<'_, State>, status: u32, clause: &str, msg: &str) -> ! {
+        let (status, clause) = if matches!(status, ST_PANIC | ST_FAIL) && is_env_exhaustion(msg) { (ST_ENV, "environment") } else { (status, clause) };
         unsafe {
             let s = &mut *self.shared;
             s.n_choices = st.nchoice as u32;
